@@ -97,9 +97,28 @@ package client
 //@   props C17
 //@   captures progcb != nil && progChan != nil && progDone != nil
 
+// INTERRUPT reaches the handler: the kill switch stored under the
+// invocation's request id (the function runHandleInterrupt calls) cancels the
+// context recorded for the invocation, which is the one its handler runs with
+// or an ancestor of it (C16).
+//@ func (c *Client) runHandleInvocation
+//@   props C16 C17
+//@   requires c != nil && msg != nil
+//@   callsite Add : [kill-switch-cancels-the-handler-context] reqID in c.invHandlerKill && cancels(c.invHandlerKill[reqID], ctx) && cliInvocation in c.invHandlersCtxs && c.invHandlersCtxs[cliInvocation] == ctx
+
+//@ func (c *Client) Done
+//@   props C17 C16
+//@   requires c != nil
+//@   modifies
+//@   ensures [the-client-context's-channel] result == method(c.ctx, "Done")
+
+// Close() waits for the invocation goroutines: each of their sends to the
+// router is one case of a select that also watches the client's own context,
+// so none of them can outlive the client when the router stops reading.
 //@ closure (c *Client) runHandleInvocation 1
-//@   props C17
+//@   props C17 C16
 //@   captures c != nil && cancel != nil && !isnil(ctx) && handler != nil && handlerQueue != nil
+//@   sendsite reply wamp.Message : [reply-gives-way-to-client-shutdown] alternative(method(c.ctx, "Done"))
 
 //@ closure (c *Client) runHandleInvocation 1.1
 //@   props C17
